@@ -35,7 +35,7 @@ func (builder *Builder) OptionByName(name string) (Option, bool) {
 
 func (builder *Builder) DeepCopy() Builder {
 	clone := Builder{
-		For:         builder.For,
+		For:         builder.For.DeepCopy(),
 		Package:     builder.Package,
 		Name:        builder.Name,
 		Properties:  make([]StructField, 0, len(builder.Properties)),
